@@ -269,7 +269,7 @@ def _solve_scale(dz, az):
 
 # ----------------------------------------------------------------------------- bounded stand-in (native, JIT)
 def bounded(run):
-    nscen = 600 if run.tier == "quick" else 6000
+    nscen = 600 if run.tier == "quick" else 6000 * run.tmul
     jobs = [dict(seed=run.seed * 1000003 + k, count=nscen // 12) for k in range(12)]
     res, errs = native.pmap("contracts.C03", "nat_sweep", jobs)
     run.worker_errors(errs, len(jobs))
